@@ -19,7 +19,9 @@ VARIABLES tid, l,
           rep,        \* C01: replica = start tree + Apply(delivered created/deleted/moved events)
           pendp,      \* C02/C07: probes not yet reported
           facts,      \* C03: what the history did so far (from opb lines)
-          gone,       \* old in-tree paths of directories that were moved out (deviation D7: they keep their kernel watch)
+          gone,       \* old in-tree paths of directories that were moved out (deviation D7: they keep their kernel watch):
+                      \* .cur = those where no directory has been created since (C01), .ever = all of them (C03: the library's
+                      \* wd -> path entry of the departed inode stays, also when a new directory takes the name)
           dfacts,     \* C03: what operations on a moved-OUT directory would be if it were still in the tree (deviation D7)
           win,        \* C03 contract: events of handler 1 since the last quiescent line
           winops,     \* C03 contract: operations begun since the last quiescent line
@@ -33,7 +35,7 @@ Tr == AllTraces[tid]
 ASSUME InitRegs
 
 NoCfg == [recursive |-> TRUE, full |-> FALSE, ty |-> "str", paced |-> TRUE, filter |-> << >>, contract |-> FALSE]
-Init == /\ tid \in 1..NTraces /\ l = 1 /\ cfg = NoCfg /\ rep = {} /\ pendp = {} /\ facts = {} /\ dfacts = {} /\ gone = {} /\ win = << >> /\ winops = << >>
+Init == /\ tid \in 1..NTraces /\ l = 1 /\ cfg = NoCfg /\ rep = {} /\ pendp = {} /\ facts = {} /\ dfacts = {} /\ gone = [cur |-> {}, ever |-> {}] /\ win = << >> /\ winops = << >>
         /\ pre = {} /\ s1 = << >> /\ s2 = << >> /\ rootdel = 0 /\ viol = {}
 
 Line(k) == l <= Len(Tr) /\ Tr[l].e = k
@@ -94,7 +96,7 @@ Apply(r, x) ==
                         ELSE ApplyMoved(r, x.src, x.dst, k)
       [] OTHER -> r
 \* entries that are not below the old path of a directory that left the tree (deviation D7)
-NotGone(r) == {e \in r : ~\E g \in gone : Pre(g, e.p)}
+NotGone(r) == {e \in r : ~\E g \in gone.cur : Pre(g, e.p)}
 Scope(t) == IF cfg.recursive THEN t ELSE {e \in t : Len(e.p) = 1}          \* non-recursive: the root's direct children
 
 \* ---------------------------------------------------------------------------- C03: justification by the history
@@ -190,11 +192,19 @@ ContractNR(o) ==
 TheContract(o) == IF cfg.recursive THEN Contract(o) ELSE ContractNR(o)
 Count(s, x) == Cardinality({i \in 1..Len(s) : s[i] = x})
 Once(x) == TypeOf(x.cls) \in {"created", "deleted", "moved"}
-ContractClauses(o, w) ==
-    LET c == TheContract(o)  d == SetOfSeq(w) IN
+ContractOf(c, w) ==
+    LET d == SetOfSeq(w) IN
     (IF c.req \subseteq d THEN {} ELSE {"P_C03_ContractNothingMissing"})
     \cup (IF d \subseteq (c.req \cup c.opt) THEN {} ELSE {"P_C03_ContractNothingAdded"})
     \cup (IF \A x \in c.req : (Once(x) /\ x \in d) => Count(w, x) = 1 THEN {} ELSE {"P_C03_ContractExactlyOnce"})
+\* Deviation D7 in the contract: an entry moved into (out of) a directory that had left the tree - whose kernel watch
+\* survives - is reported as a rename to (from) the path it would have under the directory's old in-tree name (`alias`).
+ContractClauses(o, w) ==
+    LET strict == ContractOf(TheContract(o), w) IN
+    IF strict = {} \/ ~(o.k \in {"moveout", "movein"} /\ Len(o.alias) > 0) THEN strict
+    ELSE LET asRename == IF o.k = "moveout" THEN [o EXCEPT !.k = "rename", !.q = o.alias]
+                                             ELSE [o EXCEPT !.k = "rename", !.p = o.alias] IN
+         IF ContractOf(TheContract(asRename), w) = {} THEN {"P_C03_ContractDevMovedOutKeepsWatch"} ELSE strict
 
 \* ---------------------------------------------------------------------------- C14: the synthetic events of one directory rename / arrival
 \* (same window discipline as the contract: one operation, drained).  The synthetic events delivered are exactly one
@@ -223,9 +233,14 @@ Cfg == /\ Line("cfg") /\ Consume /\ cfg' = Tr[l]
 OpBegin == /\ Line("opb") /\ Consume
            /\ facts' = facts \cup OpFacts(Tr[l].op)
            /\ dfacts' = dfacts \cup DevFacts(Tr[l].op)
+           \* the stale watch-table entry of a directory that left the tree (D7) follows later renames of its in-tree
+           \* ancestors like every other entry: the old and the re-keyed path both stay excused
            /\ gone' = LET o == Tr[l].op
-                          made == IF o.k \in {"mkdir", "makedirs"} THEN {o.p} ELSE IF o.k \in {"rename", "movein"} THEN {o.q} ELSE {} IN
-                      (gone \ made) \cup (IF o.k = "moveout" /\ o.kind = "dir" THEN {o.p} ELSE {})
+                          made == IF o.k \in {"mkdir", "makedirs"} THEN {o.p} ELSE IF o.k \in {"rename", "movein"} THEN {o.q} ELSE {}
+                          Moved(S) == IF o.k = "rename" /\ o.kind = "dir"
+                                      THEN {o.q \o SubSeq(g, Len(o.p) + 1, Len(g)) : g \in {h \in S : Pre(o.p, h) /\ h # o.p}} ELSE {}
+                          out == IF o.k = "moveout" /\ o.kind = "dir" THEN {o.p} ELSE {} IN
+                      [cur |-> ((gone.cur \ made) \cup Moved(gone.cur)) \cup out, ever |-> (gone.ever \cup Moved(gone.ever)) \cup out]
            /\ winops' = Append(winops, Tr[l].op)
            /\ UNCHANGED <<cfg, rep, pendp, win, pre, s1, s2, rootdel, viol>>
 OpEnd == /\ Line("op") /\ Consume /\ UNCHANGED <<cfg, rep, pendp, facts, dfacts, gone, win, winops, pre, s1, s2, rootdel, viol>>
@@ -250,7 +265,7 @@ Cb == /\ Line("cb") /\ Consume
                     \* deviation D7: the event is what an operation on a moved-out directory would be under its old name,
                     \* or it names something below the old in-tree path of a directory that left the tree (its kernel
                     \* watch survives, also when the same directory comes back under another name)
-                    ELSE IF Justified(x, facts \cup dfacts) \/ (x.hs /\ \E g \in gone : Pre(g, x.src))
+                    ELSE IF Justified(x, facts \cup dfacts) \/ (x.hs /\ \E g \in gone.ever : Pre(g, x.src))
                          THEN {"P_C03_SoundDevMovedOutKeepsWatch"} ELSE {"P_C03_Sound"})
               \* C02: a non-recursive watch never reports anything below the root's direct children
               \cup (IF ~cfg.recursive /\ ((x.hs /\ Len(x.src) > 1) \/ (x.hd /\ Len(x.dst) > 1)) THEN {"P_C02_NonRecursiveSilentBelow"} ELSE {})
